@@ -145,7 +145,7 @@ PROPS = {
         'rule': 'loc-durable: histories of 20-45 fact/rule/property/parent operations with frequent reloads on either state kind over MemStorage or BoltDB; in 2 of 3 cases the n-th storage call '
                 '(n uniform in 0..29) of the location instance fails once; in half of the cases the location is rebuilt from storage immediately after the failing call (crash point between two storage writes); '
                 'every local search result carries the stored document (parsed) and must equal the model\'s fact; non-trivial = at least 3 distinct (op, outcome) kinds; distinct by hash of inputs',
-        'refuted': ['hook_reject_leaves_residue_counterexample', 'failed_add_modifies_memory_counterexample', 'failed_clear_empties_memory_counterexample', 'purge_errors_swallowed_example', 'load_expired_record_in_facts_counterexample'],
+        'refuted': ['failed_add_modifies_memory_counterexample', 'failed_clear_empties_memory_counterexample', 'purge_errors_swallowed_example', 'load_expired_record_in_facts_counterexample'],
         'level_text': 'Coq theorems over the executable state model, for every history (fold over operation lists), both state kinds: store_mirrors_memory, reload_same_facts / reload_equiv_reachable '
                       '(a location rebuilt from storage has the same ids, contents, expiry instants and index invariants), prepare_idempotent, storage_failure_is_reported (every failing call index), '
                       'ops_touch_only_named_ids (every crash/failure point: an interrupted add touches only its id, an interrupted removal only loses keys of the deleteWith closure). '
@@ -297,7 +297,7 @@ PROPS = {
         'level_text': 'Coq theorems over the executable model of CachedLocations (expire/Open/Release, CachedLocation.Get, existence check, !cacheTTL): cache_transparent (every configuration, every history: same final stored state and success pattern as the cache-free system, never a stale instance), '
                       'results_independent_of_ttl, existence_check_no_create, forever_loads_once, never_reloads_every_request, and for concurrent first requests over all schedules single_load_with_reuse (the protocol as repaired in /repo; the refutation for the earlier code is kept: D41). '
                       'Together with C06 (reload_same_facts: an instance loaded from storage is the live location) this gives transparency of results. Tie to the code: three real Systems with different TTLs on the same history, compared with each other and with the location model.',
-        'level_note': 'Known findings: D33 (hook-rejected add on the linear state leaves a record: visible after reload, hence TTL-dependent), D41 (single load could be violated under a specific interleaving; repaired in /repo, fix: commit). '
+        'level_note': 'Known findings: D33 (a hook-rejected add on the linear state left a record: visible after reload, hence TTL-dependent; repaired in /repo, fix: commit - a TTL-dependent answer is now a plain spec failure), D41 (single load could be violated under a specific interleaving; repaired in /repo, fix: commit). '
                       'GetLastUpdatedMem, location stats and controls are in-memory by design and are outside the compared surface.',
         'technique': 'Coq refinement of the cache layer to a cache-free specification over all histories + exhaustive-schedule invariant for concurrent opens + three-way differential of real Systems',
         'assumptions': ['sequential request histories for the transparency clause', 'a finite TTL requires a persistent cron service (NewSystem enforces it; the harness supplies a recording one)'],
